@@ -18,7 +18,7 @@ import common as C  # noqa: E402
 
 FAMILY = {
     "C01": "cast", "C02": "cast", "C03": "cast", "C07": "cast", "C11": "cast+alloc", "C14": "cast",
-    "C20": "features", "C05": "derive", "C19": "derive", "C06": "derive", "C08": "derive", "C18": "derive", "C17": "tables:contig", "C04": "tables:census",
+    "C20": "features", "C05": "derive", "C19": "derive", "C06": "derive", "C08": "derive", "C18": "derive", "C17": "tables:contig", "C04": "tables:census+contig",
     "C09": "alloc", "C10": "alloc", "C12": "alloc", "C13": "alloc", "C15": "alloc", "C16": "alloc",
 }
 
